@@ -271,9 +271,16 @@ func (f *Filter) strValue() string {
 		return f.customTag
 	}
 	var value string
+	stringVal := f.stringVal
+	switch f.operator {
+	case Contains, ContainsNot, ContainsNoCase, ContainsNoCaseNot:
+		// substring operators are written as regular expression operators, so quote the text
+		stringVal = regexp.QuoteMeta(stringVal)
+	default:
+	}
 	switch colType {
 	case CustomVarCol:
-		value = f.customTag + " " + f.stringVal
+		value = f.customTag + " " + stringVal
 	case Int64ListCol,
 		IntCol, Int64Col,
 		FloatCol,
@@ -283,7 +290,7 @@ func (f *Filter) strValue() string {
 		JSONCol,
 		StringLargeCol,
 		StringCol:
-		value = f.stringVal
+		value = stringVal
 	default:
 		log.Panicf("not implemented column type: %v", f.column.DataType)
 	}
